@@ -14,6 +14,11 @@ def run(c):
   n = 120 if c.tier == 'quick' else 1500
   svccheck.differential(c, 'C02', n, backends, cfgs, weights=WEIGHTS, clients=('w1', 'w2', 'w3'),
                         lengths=(5, 26) if c.tier == 'quick' else (5, 45))
+  # ONE worker, long histories: the worker's operation counter passes 10 (operation names with several digits),
+  # its trials pile up, the sticky rule is applied again and again
+  heavy = dict(WEIGHTS, suggest=24, createTrial=2, deleteTrial=2, createStudy=1)
+  svccheck.differential(c, 'C02', 12 if c.tier == 'quick' else 150, backends, cfgs, weights=heavy, clients=('w1',),
+                        lengths=(34, 48), fail_rate=0.05, directed=False)
   # the same histories' shape through the REAL PythiaServicer glue (policy supporter + decision converters)
   # hosting a scripted policy that delivers n-2..n+3 suggestions and never fails
   svccheck.differential(c, 'C02', 30 if c.tier == 'quick' else 300, ['local:ram'], {'local:ram': cfgs['ram']}, weights=WEIGHTS,
@@ -24,5 +29,5 @@ def run(c):
   svc.cleanup()
   return c.finish(
       level='proof',
-      rule='suggest-heavy stateful histories (3 workers, counts 1-4, scripted algorithm delivering n-2..n+3 or raising, interleaved complete/request/add/delete); non-trivial when >=2 of suggest/complete/deleteTrial/deleteStudy occur',
+      rule='suggest-heavy stateful histories (3 workers, and long single-worker histories with >10 operations of one worker; counts 1-4, scripted algorithm delivering n-2..n+3 or raising, interleaved complete/request/add/delete); non-trivial when >=2 of suggest/complete/deleteTrial/deleteStudy occur',
       assumptions=['the count formula is judged only when the worker has no unfinished operation and the algorithm\'s metadata delta names existing trials'])
